@@ -558,9 +558,9 @@ class Evaluator:
         if isinstance(op, (ast.Div, ast.FloorDiv, ast.Mod)) and (isinstance(b, (int, float, Fraction)) and not isinstance(b, bool) and b == 0 or isinstance(b, RF) and b.is_const() and b.const_value() == 0):
             self.zero_division = True  # the real code raises here: callers may treat the run as a loud failure
             raise NotEval("division by zero")
-        if isinstance(a, Model):
+        if hasattr(a, "le_binop"):
             return a.le_binop(op, b, False)
-        if isinstance(b, Model):
+        if hasattr(b, "le_binop"):
             return b.le_binop(op, a, True)
         if isinstance(a, Vec1) or isinstance(b, Vec1):
             if isinstance(a, Vec1) and isinstance(b, Vec1):
@@ -704,7 +704,7 @@ class Evaluator:
                 v = self.ev(fn.value, f)
                 if isinstance(v, Mat2) and (m in ("flatten", "ravel") and not e.args or m in ("reshape", "view") and ast.unparse(e.args[0]) == "-1"):
                     return Vec1(x for row in v for x in row)
-                if isinstance(v, Vec1) and not e.args:
+                if isinstance(v, Vec1) and (not e.args or ast.unparse(e.args[0]) == "-1"):
                     return v
                 raise NotEval("flatten of a non-matrix")
             if m in ("t",) and not e.args or (m == "transpose" and [ast.unparse(a) for a in e.args] in (["0", "1"], ["1", "0"], ["-1", "-2"], ["-2", "-1"])):
@@ -951,7 +951,9 @@ class Evaluator:
                 n = n[0]
             if isinstance(n, int) and not isinstance(n, bool) and len([x for x in a if isinstance(x, int)]) == 1:
                 return Vec1([0 if name != "torch.ones" else 1] * n)
-            raise NotEval("tensor of symbolic / higher shape")
+            if self.on_call is None:
+                raise NotEval("tensor of symbolic / higher shape")
+            # higher shapes: left to the rule's own tensor model (on_call below)
         if name == "torch.flip":
             a = A()
             if isinstance(a[0], Vec1):
